@@ -813,7 +813,7 @@ class Model:
         t = {}
         groups = [("op", self._t_op), ("resp", self._t_resp), ("status", self._t_status), ("bitflags", self._t_bitflags),
                   ("dispatch", self._t_dispatch), ("consts", self._t_consts), ("fingerprints", self._t_fingerprints),
-                  ("gating", self._t_gating), ("layouts", self._t_layouts), ("arb", self._t_arb)]
+                  ("gating", self._t_gating), ("layouts", self._t_layouts), ("u2fprog", self._t_u2fprog), ("arb", self._t_arb)]
         for aspect, fn in groups:
             part = {}
             try:
@@ -1132,6 +1132,139 @@ class Model:
             if need not in lay:
                 raise Untranslatable("layouts", need + " serialiser not found")
         t["layouts"] = lay
+
+    # ------------------------------------------------------------------ the U2F APDU parser as a program (C08)
+    U2F_ERRS = {"ClassNotSupported": "classNotSupported", "IncorrectDataParameter": "incorrectDataParameter",
+                "InstructionNotSupportedOrInvalid": "instructionNotSupportedOrInvalid"}
+    U2F_PRELUDE = ["letcla=apdu.class().into_inner()",
+                   "letins=matchapdu.instruction(){iso7816::Instruction::Unknown(ins)=>ins,_ins=>0,}",
+                   "letp1=apdu.p1", "let_p2=apdu.p2"]
+
+    def u2f_cond(self, where, c):
+        for rx, f in ((r"cla!=(\w+)", lambda n: {"k": "claNe", "n": n}), (r"ins==(\w+)", lambda n: {"k": "insEq", "n": n}),
+                      (r"request\.len\(\)!=(\w+)", lambda n: {"k": "lenNe", "n": n}),
+                      (r"request\.len\(\)<(\w+)", lambda n: {"k": "lenLt", "n": n})):
+            m = re.fullmatch(rx, c)
+            if m:
+                v = parse_int_lit(m.group(1))
+                if v is None:
+                    raise Untranslatable(where, f"condition operand {m.group(1)}")
+                return f(v)
+        m = re.fullmatch(r"request\.len\(\)!=(\w+)\+key_handle_length", c)
+        if m and parse_int_lit(m.group(1)) is not None:
+            return {"k": "lenNeBasePlusVar", "n": parse_int_lit(m.group(1))}
+        raise Untranslatable(where, f"condition not recognised: {c[:60]}")
+
+    def u2f_slice(self, where, e):
+        m = re.fullmatch(r"\(&request\[(\w*)\.\.(\w*)\]\)\.try_into\(\)\.unwrap\(\)", e)
+        if m:
+            lo = parse_int_lit(m.group(1)) if m.group(1) else 0
+            hi = parse_int_lit(m.group(2)) if m.group(2) else None
+            if lo is None or (m.group(2) and hi is None):
+                raise Untranslatable(where, "slice bound " + e)
+            return {"k": "arr32", "lo": lo, "hi": hi}
+        m = re.fullmatch(r"&request\[(\w+)\.\.\]", e)
+        if m and parse_int_lit(m.group(1)) is not None:
+            return {"k": "tail", "lo": parse_int_lit(m.group(1))}
+        raise Untranslatable(where, f"slice expression not recognised: {e[:60]}")
+
+    def u2f_final(self, where, e):
+        if e == "Ok(Request::Version)":
+            return {"k": "version"}
+        m = re.fullmatch(r"Err\(Error::(\w+)\)", e)
+        if m and m.group(1) in self.U2F_ERRS:
+            return {"k": "err", "e": self.U2F_ERRS[m.group(1)]}
+        m = re.fullmatch(r"Ok\(Request::Register\(Register\{challenge:(.*?),app_id:(.*?),?\}\)\)", e)
+        if m:
+            return {"k": "register", "c": self.u2f_slice(where, m.group(1)), "a": self.u2f_slice(where, m.group(2))}
+        m = re.fullmatch(r"Ok\(Request::Authenticate\(Authenticate\{control_byte,challenge:(.*?),app_id:(.*?),key_handle:(.*?),?\}\)\)", e)
+        if m:
+            return {"k": "authenticate", "c": self.u2f_slice(where, m.group(1)), "a": self.u2f_slice(where, m.group(2)),
+                    "kh": self.u2f_slice(where, m.group(3))}
+        raise Untranslatable(where, f"result expression not recognised: {e[:80]}")
+
+    def u2f_steps(self, where, stmts):
+        steps = []
+        for st in stmts:
+            if st == "":
+                continue
+            m = re.fullmatch(r"if(.*?)\{returnErr\(Error::(\w+)\);\}", st)
+            if m and m.group(2) in self.U2F_ERRS:
+                steps.append({"k": "guardErr", "c": self.u2f_cond(where, m.group(1)), "e": self.U2F_ERRS[m.group(2)]})
+                continue
+            m = re.fullmatch(r"if(.*?)\{returnOk\(Request::Version\);\}", st)
+            if m:
+                steps.append({"k": "guardVersion", "c": self.u2f_cond(where, m.group(1))})
+                continue
+            if st == "letcontrol_byte=ControlByte::try_from(p1)?":
+                steps.append({"k": "control"})
+                continue
+            m = re.fullmatch(r"letkey_handle_length=request\[(\w+)\]asusize", st)
+            if m and parse_int_lit(m.group(1)) is not None:
+                steps.append({"k": "bindIdx", "i": parse_int_lit(m.group(1))})
+                continue
+            raise Untranslatable(where, f"statement not recognised: {st[:80]}")
+        return steps
+
+    def _t_u2fprog(self, t, feats):
+        where = "ctap1::Request::try_from"
+        fn = None
+        for imp in self.impls:
+            tr = (imp["trait"] or "").replace(" ", "")
+            if tr == "TryFrom<iso7816::command::CommandView<'a>>" and imp["self_ty"].replace(" ", "") == "Request<'a>" \
+                    and imp["module"] == "ctap1":
+                fn = [f for f in imp["items"] if f["kind"] == "fn" and f["name"] == "try_from"][0]
+        if fn is None:
+            raise Untranslatable(where, "impl not found")
+        body = fn["body"].replace(" ", "")
+        stmts = [x for x in self.split_statements(body) if x]
+        if stmts[:4] != self.U2F_PRELUDE:
+            raise Untranslatable(where, "prelude (cla / ins / p1 bindings) not of the recognised shape")
+        rest = stmts[4:]
+        if "letrequest=apdu.data()" not in rest or not rest[-1].startswith("matchins{"):
+            raise Untranslatable(where, "expected `let request = apdu.data();` and a final `match ins`")
+        k = rest.index("letrequest=apdu.data()")
+        pre = rest[:k] + rest[k + 1:-1]
+        mt = [m for m in fn["matches"] if m["scrutinee"].strip() == "ins"]
+        if len(mt) != 1 or body.count("matchins{") != 1:
+            raise Untranslatable(where, "expected exactly one `match ins`")
+        arms, default = [], None
+        for arm in mt[0]["arms"]:
+            pat = arm["pat"].strip()
+            ab = arm["body"].replace(" ", "")
+            if arm.get("guard"):
+                raise Untranslatable(where, "guarded arm")
+            if ab.startswith("{"):
+                ss = [x for x in self.split_statements(ab) if x]
+                steps, fin = self.u2f_steps(where, ss[:-1]), self.u2f_final(where, ss[-1])
+            else:
+                steps, fin = [], self.u2f_final(where, ab)
+            if pat == "_":
+                if steps:
+                    raise Untranslatable(where, "default arm with statements")
+                default = fin
+            else:
+                v = parse_int_lit(pat)
+                if v is None or default is not None:
+                    raise Untranslatable(where, f"arm pattern {pat}")
+                arms.append({"ins": v, "steps": steps, "final": fin})
+        if default is None:
+            raise Untranslatable(where, "no default arm")
+        t["u2f_program"] = {"pre": self.u2f_steps(where, pre), "arms": arms, "default": default}
+        # the error `ControlByte::try_from(p1)?` propagates
+        errs = set()
+        for imp in self.impls:
+            if (imp["trait"] or "").replace(" ", "") == "TryFrom<u8>" and imp["self_ty"].strip() == "ControlByte":
+                for arm in self.single_match(imp, "try_from")["arms"]:
+                    b = arm["body"].replace(" ", "")
+                    mm = re.fullmatch(r"Err\(Error::(\w+)\)", b)
+                    if mm:
+                        errs.add(mm.group(1))
+                    elif not b.startswith("Ok("):
+                        raise Untranslatable("ControlByte::try_from", f"arm body {b[:40]}")
+        if len(errs) != 1 or next(iter(errs)) not in self.U2F_ERRS:
+            raise Untranslatable("ControlByte::try_from", f"error arms {sorted(errs)}")
+        t["control_byte_err"] = self.U2F_ERRS[next(iter(errs))]
 
     def _t_arb(self, t, feats):
         t["arb"] = self.arb_tables()
